@@ -8,7 +8,8 @@ derives from what REAL `SyncObj` clusters just did.
 One JSON object per line, one JSON reply per line.
 
 ```
-{"N":3}                                   start a new trace with N voters (state := PSO.Raft.init)  -> {"ok":true}
+{"N":3}  |  {"N":3,"M":5}                 start a new trace with N voters and M-N observers (ids N..M-1; M defaults to N;
+                                          state := PSO.Raft.init)                                   -> {"ok":true}
 {"a":"timeout","n":i,"dsts":[j…]}
 {"a":"recvReqVote","n":i,"m":M}           M = {"k":"reqVote","t","cand","dst","li","lt"}
 {"a":"recvVote","n":i,"m":M}              M = {"k":"vote","t","voter","cand"}
@@ -21,29 +22,32 @@ One JSON object per line, one JSON reply per line.
 {"a":"sendSnapshot","n":i,"dst":j,"k":pos}
 {"a":"recvSnapshot","n":i,"m":M}          M = {"k":"snapshot","t","ldr","dst","pos","posTerm","commit"[,"pfx":[[term,cmd]…]]}
 {"a":"lose","m":M}
+{"a":"restart","n":i,"c":commitPos,"ap":appliedPos}
       -> {"ok":true}   |   {"ok":false,"why":"guard"}  (step = none; state unchanged)   |   {"ok":false,"why":"parse: …"}
-{"q":"state"}  -> {"nodes":[{"term","voted":j|null,"role":0|1|2,"votes","log":[[term,cmd]…],"commit","applied","match":[…N…]}…],"nmsgs":k}
+{"q":"state"}  -> {"nodes":[{"term","voted":j|null,"role":0|1|2,"votes","log":[[term,cmd]…],"commit","applied","match":[…M…]}…M…],"nmsgs":k}
 {"q":"msgs"}   -> {"msgs":[M…]}           (snapshot messages are printed with "pfxlen" instead of "pfx")
 ```
 The harness does not know the ghost field `pfx` of a snapshot message: without `"pfx"` the driver takes
 the first message of `msgs` that agrees on all other fields.  Positions are the model's (real index − 1).
 
 State is held as functions `Nat → NodeSt`; after every step the node table and every `matchIdx` are
-re-materialised from arrays over `0..N-1` so that closure chains do not grow with the trace.  This is the
-identity on every state the driver can reach: `step` only ever writes nodes `< N`, and the parser
-rejects node numbers `≥ N`, so `matchIdx j` for `j ≥ N` is never written either.
+re-materialised from arrays over `0..M-1` so that closure chains do not grow with the trace.  This is the
+identity on every state the driver can reach: the parser rejects node numbers `≥ M`, every message in
+`msgs` was created by an action with such numbers, so `step` never writes a node or a `matchIdx j`
+with an index `≥ M`.
 -/
 namespace Driver.Core
 open Lean PSO.Raft
 
 structure DS where
   N : Nat := 0
+  M : Nat := 0          -- voters + observers
   s : State := init
 
-def materialise (N : Nat) (s : State) : State :=
-  let arr : Array NodeSt := (Array.range N).map fun i =>
+def materialise (M : Nat) (s : State) : State :=
+  let arr : Array NodeSt := (Array.range M).map fun i =>
     let ns := s.nodes i
-    let m : Array Nat := (Array.range N).map ns.matchIdx
+    let m : Array Nat := (Array.range M).map ns.matchIdx
     { ns with matchIdx := fun j => m.getD j 0 }
   { s with nodes := fun i => arr.getD i {} }
 
@@ -120,6 +124,7 @@ def parseAction (N : Nat) (s : State) (j : Json) : Except String Action := do
   | "sendSnapshot" => pure (.sendSnapshot (← nodeField N j "n") (← nodeField N j "dst") (← natField j "k"))
   | "recvSnapshot" => pure (.recvSnapshot (← nodeField N j "n") (← parseMsg N s (← j.getObjVal? "m")))
   | "lose" => pure (.lose (← parseMsg N s (← j.getObjVal? "m")))
+  | "restart" => pure (.restart (← nodeField N j "n") (← natField j "c") (← natField j "ap"))
   | _ => throw s!"unknown action {a}"
 
 /-! ### printing (hand-built strings: the state is printed after every real event) -/
@@ -147,7 +152,7 @@ def nodeJ (N : Nat) (ns : NodeSt) : String :=
   ",\"match\":" ++ listJ ((List.range N).map fun j => toString (ns.matchIdx j)) ++ "}"
 
 def stateJ (d : DS) : String :=
-  "{\"nodes\":" ++ listJ ((List.range d.N).map fun i => nodeJ d.N (d.s.nodes i)) ++
+  "{\"nodes\":" ++ listJ ((List.range d.M).map fun i => nodeJ d.M (d.s.nodes i)) ++
   ",\"nmsgs\":" ++ toString d.s.msgs.length ++ "}"
 
 def msgJ : Msg → String
@@ -167,7 +172,11 @@ def handle (d : DS) (j : Json) : DS × String :=
   match j.getObjVal? "N" with
   | .ok n =>
     match n.getNat? with
-    | .ok N => ({ N := N, s := init }, okJ)
+    | .ok N =>
+      let M := match j.getObjVal? "M" with
+        | .ok m => max N (m.getNat?.toOption.getD N)
+        | .error _ => N
+      ({ N := N, M := M, s := init }, okJ)
     | .error e => (d, failJ ("parse: " ++ e))
   | .error _ =>
     match j.getObjVal? "q" with
@@ -177,12 +186,12 @@ def handle (d : DS) (j : Json) : DS × String :=
       | .ok "msgs" => (d, "{\"msgs\":" ++ listJ (d.s.msgs.map msgJ) ++ "}")
       | _ => (d, failJ "parse: unknown query")
     | .error _ =>
-      match parseAction d.N d.s j with
+      match parseAction d.M d.s j with
       | .error e => (d, failJ ("parse: " ++ e))
       | .ok a =>
         match step d.N d.s a with
         | none => (d, failJ "guard")
-        | some s' => ({ d with s := materialise d.N s' }, okJ)
+        | some s' => ({ d with s := materialise d.M s' }, okJ)
 
 partial def loop (stdin stdout : IO.FS.Stream) (d : DS) : IO Unit := do
   let line ← stdin.getLine
